@@ -474,7 +474,8 @@ def generate(rng, tier, index):
                                  "op": {"fn": rng.choice(["genhkl_all", "genhkl_unique"]), "module": m2,
                                         "mode": {"by": "sgno"}, "output_stl": rng.chance(0.5), "w": w2,
                                         "rng": {"start": ["continue"], "preconsume": 0, "per_draw": {}}}}
-    cfg = {"workloads": workloads, "fault_free": fault_free, "fault_kinds": kinds, "session_seed": rng.bits(32),
+    cfg = {"logging": rng.weighted([("quiet", 5), ("default", 2), ("debug", 3)]),
+           "workloads": workloads, "fault_free": fault_free, "fault_kinds": kinds, "session_seed": rng.bits(32),
            "cell_container": rng.choice(["list", "list", "ndarray"])}
     return {"property": "C05", "config": cfg, "ops": merged}
 
@@ -639,7 +640,9 @@ def execute(trace):
         counters[k] = counters.get(k, 0) + n
 
     kf_open = any(f.get("id") == "KF-traversal" for f in core.findings_for("C05"))
-    logging.disable(logging.CRITICAL)
+    logcfg = core.log_config(cfg.get("logging", "quiet"))
+    logcfg.__enter__()
+    count("logging." + logcfg.mode)
     seam = RngSeam(np)
     saved_state = np.random.get_state()
     # the stream a session starts from is part of the trace (numpy seeds the global state from
@@ -904,7 +907,7 @@ def execute(trace):
             pass
         seam.remove()
         np.random.set_state(saved_state)
-        logging.disable(logging.NOTSET)
+        logcfg.__exit__(None, None, None)
     for k, v in seam.fired.items():
         count("fault." + k, v)
     draws_total = tot[0]
